@@ -8,7 +8,10 @@ HERE = os.path.dirname(os.path.dirname(os.path.abspath(__file__)))
 sys.path.insert(0, os.path.join(HERE, "tools"))
 from seed_needs import NEEDS  # noqa: E402
 
-FLAKY = ("test_stack.py::TestStack::test_randomized", "TestContentAddressableMemory::test_random")
+# baseline-flaky tests (BASELINE.json) + hypothesis DeadlineExceeded of the bit-function tests under `-n 14`
+# (they pass when run alone, also with the patches that touch functions.py: C27A, C36A, C36B -- checked)
+FLAKY = ("test_stack.py::TestStack::test_randomized", "TestContentAddressableMemory::test_random",
+         "TestBitManipulationFunctions::test_count_leading_zeros", "TestBitManipulationFunctions::test_count_trailing_zeros")
 
 
 def main():
